@@ -6,7 +6,14 @@ typedef struct str_t { int8_t* data; size_t size; uint64_t tag; } str_t;
 #if defined(VERIF_CBMC) && defined(VERIF_ABSTRACT)
 static void str_assign_n(str_t* s, const int8_t* p, size_t n) { VERIF_ASSERT(n == 0 || __CPROVER_r_ok(p, n), "model: string::assign source readable"); s->data = (int8_t*)malloc(n ? n : 1); VERIF_ASSUME(s->data != 0); s->size = n; s->tag = 0;
   /* assign copies every byte: stated for the arbitrary ghost position verif_g */ if (verif_g < n) s->data[verif_g] = p[verif_g]; }
+#ifdef VERIF_STR_TOKENS
+/* contracts that compare strings by provenance (option strtokens, see verif_track.h): a copy has the same size and the same
+ * token and fresh storage; its bytes are left arbitrary (an over-approximation).  No source byte is read, so the unconstrained
+ * elements of an abstract vector (whose strings may be invalid pointers, which no real execution has) do not matter. */
+static str_t str_copy(const str_t* a) { str_t r; r.data = (int8_t*)malloc(a->size ? a->size : 1); VERIF_ASSUME(r.data != 0); r.size = a->size; r.tag = a->tag; return r; }
+#else
 static str_t str_copy(const str_t* a) { str_t r; r.data = (int8_t*)malloc(a->size ? a->size : 1); VERIF_ASSUME(r.data != 0); r.size = a->size; r.tag = a->tag; if (verif_g < a->size) r.data[verif_g] = a->data[verif_g]; return r; }
+#endif
 static _Bool str_eq(const str_t* a, const str_t* b) { if (a->size != b->size) return 0; return nondet_bool(); }
 #else
 static void str_assign_n(str_t* s, const int8_t* p, size_t n) { s->data = (int8_t*)verif_alloc(n, 1); for (size_t i = 0; i < n; ++i) VERIF_MODEL_LOOP s->data[i] = p[i]; s->size = n; }
